@@ -3429,8 +3429,9 @@ class DenseIntOrFPElementsAttr(
         Return whether or not this dense attribute is defined entirely
         by a single value (splat).
         """
-        values = self.get_values()
-        return values.count(values[0]) == len(values)
+        data = self.data.data
+        size = self.type.element_type.compile_time_size
+        return data == data[:size] * (len(data) // size)
 
     @staticmethod
     def parse_with_type(parser: AttrParser, type: Attribute) -> TypedAttribute:
